@@ -166,7 +166,7 @@ func main() {
 		}
 		var extra map[string]any
 		if *tier == "thorough" && explainKeys == nil {
-			extra = thoroughExtras(vdir, root, id, p, r)
+			extra = thoroughExtras(vdir, root, id, p, r, kfs)
 			wall = time.Since(t0).Seconds() + loadS
 			n, okN, viol, und, vac, known = r.tally()
 		}
@@ -204,7 +204,7 @@ func main() {
 // `verif` (files hidden behind the guard tag are analysed too; any obligation
 // that is not discharged there is added to the run), (b) the checker self-test
 // for this property (evidence only: it never changes the exit code).
-func thoroughExtras(vdir, root, id string, p *propInfo, r *Rec) map[string]any {
+func thoroughExtras(vdir, root, id string, p *propInfo, r *Rec, kfs []KnownFinding) map[string]any {
 	extra := map[string]any{}
 	if tctx, err := loadRepo(root, "verif", "thorough"); err != nil {
 		r.undecided("load", "repository(tags=verif)", "", err.Error())
@@ -219,13 +219,14 @@ func thoroughExtras(vdir, root, id string, p *propInfo, r *Rec) map[string]any {
 			p.Run(tctx, tr)
 		}()
 		tr.applyFloors()
+		tr.applyKnown(kfs) // the same known findings apply to the tagged load
 		have := map[string]bool{}
 		for _, o := range r.Obls {
 			have[o.Key()+o.Status] = true
 		}
 		added := 0
 		for _, o := range tr.Obls {
-			if o.Status != stOK && !have[o.Key()+o.Status] {
+			if o.Status != stOK && o.Status != stSkipped && o.Status != stKnown && !have[o.Key()+o.Status] {
 				o.Construct = "tags=verif/" + o.Construct
 				r.Obls = append(r.Obls, o)
 				added++
